@@ -19,6 +19,8 @@ package standard
 //@   // the chain's SECONDS_PER_SLOT as reported by the beacon node: a positive duration on every chain (the chain time
 //@   // service relies on the same)
 //@   valid self.slotDuration >= 0
+//@   // set once at construction from the chain specification (EPOCHS_PER_SYNC_COMMITTEE_PERIOD)
+//@   valid self.epochsPerSyncCommitteePeriod > 0
 //@   confined activeValidators: after construction read and written only by the accounts refresher's periodic job (its run-time function and job function run on that job's goroutine and never overlap); not covered: New writes it once more after the tickers were started, a start-up window in which the refresher's first run-time computation may read it
 //@   confined lastBlockRoot, lastBlockEpoch, currentDutyDependentRoot, previousDutyDependentRoot: read and written only by HandleHeadEvent and its helper checkEventForReorg, which the events provider invokes sequentially on one goroutine
 //@
@@ -208,6 +210,18 @@ package standard
 //@ // (under contract so that the head event handler is verified against their contracts rather than their bodies)
 //@ func (*Service).checkEventForReorg
 //@   requires s != nil && nolocks()
+//@   // C03: a head event of an epoch already seen that shows a changed (known) previous / current dependent root starts
+//@   // the refresh of the duties that depend on it - each of the two on its own, whatever the other root did; at a
+//@   // change of epoch the new previous root is compared with the old current one
+//@   ensures old(s.lastBlockEpoch) != 0 && epoch <= old(s.lastBlockEpoch) && !iszero(old(s.currentDutyDependentRoot)) && old(s.currentDutyDependentRoot) != currentDutyDependentRoot ==> started(handleCurrentDependentRootChanged) == 1
+//@   ensures old(s.lastBlockEpoch) != 0 && epoch <= old(s.lastBlockEpoch) && !iszero(old(s.previousDutyDependentRoot)) && old(s.previousDutyDependentRoot) != previousDutyDependentRoot ==> started(handlePreviousDependentRootChanged) == 1
+//@   ensures old(s.lastBlockEpoch) != 0 && epoch > old(s.lastBlockEpoch) && !iszero(old(s.previousDutyDependentRoot)) && old(s.currentDutyDependentRoot) != previousDutyDependentRoot ==> started(handlePreviousDependentRootChanged) == 1
+//@   // and nothing is refreshed when the roots are the ones already known
+//@   ensures old(s.lastBlockEpoch) != 0 && epoch <= old(s.lastBlockEpoch) && old(s.currentDutyDependentRoot) == currentDutyDependentRoot ==> started(handleCurrentDependentRootChanged) == 0
+//@   ensures old(s.lastBlockEpoch) != 0 && epoch <= old(s.lastBlockEpoch) && old(s.previousDutyDependentRoot) == previousDutyDependentRoot ==> started(handlePreviousDependentRootChanged) == 0
+//@   // the epoch of the event is remembered for the next comparison (the remembered roots are not stated: the roots
+//@   // are handed to the logger as slices of the parameters, which the engine treats as possibly written)
+//@   ensures s.lastBlockEpoch == epoch
 //@ func (*Service).VerifySyncCommitteeMessages
 //@   requires s != nil && nolocks()
 //@
@@ -221,11 +235,27 @@ package standard
 //@   at call Unlock#1: assert forall e phase0.Epoch {in(s.subscriptionInfos, e)} :: in(s.subscriptionInfos, e) ==> e + 2 > epoch
 //@
 //@ // the wall-clock epoch is (now - genesis) / (slot duration * slots per epoch): far below 2^62 for any clock
-//@ func (*Service).handlePreviousDependentRootChanged
-//@   assumes call CurrentEpoch (e): e <= 4611686018427387904
+//@ // nowEpoch(): the wall-clock epoch while a reorg handler runs (the reads of the clock within one handler are
+//@ // taken to agree: an assumption, they are separate reads of a clock)
+//@ spec func nowEpoch() phase0.Epoch
 //@
+//@ // C03: a changed previous dependent root refreshes the attester duties of the current epoch
+//@ func (*Service).handlePreviousDependentRootChanged
+//@   requires s != nil && nolocks()
+//@   assumes call CurrentEpoch (e): e <= 4611686018427387904 && e == nowEpoch()
+//@   at call refreshAttesterDutiesForEpoch#1: assert arg2 == nowEpoch()
+//@   ensures calls(refreshAttesterDutiesForEpoch) == 1
+//@
+//@ // C03: a changed current dependent root refreshes the proposer duties of the current epoch and the attester duties
+//@ // of the next, and at a period boundary the sync committee duties of the next period
 //@ func (*Service).handleCurrentDependentRootChanged
-//@   assumes call CurrentEpoch (e): e <= 4611686018427387904
+//@   requires s != nil && nolocks()
+//@   assumes call CurrentEpoch (e): e <= 4611686018427387904 && e == nowEpoch()
+//@   at call go#1: assert arg2 == nowEpoch()
+//@   at call go#2: assert arg2 == nowEpoch() + s.epochsPerSyncCommitteePeriod
+//@   at call go#3: assert arg2 == nowEpoch() + 1
+//@   ensures started(refreshProposerDutiesForEpoch) == 1 && started(refreshAttesterDutiesForEpoch) == 1
+//@   ensures nowEpoch() % s.epochsPerSyncCommitteePeriod == 0 ==> started(refreshSyncCommitteeDutiesForEpochPeriod) == 1
 //@
 //@ func (*Service).refreshAttesterDutiesForEpoch
 //@   requires nolocks() && epoch <= 9223372036854775807
